@@ -453,7 +453,7 @@ def oracle_stream(sc: dict, r: dict) -> list[tuple[str, dict]]:
 def eval_stream(sc: dict) -> dict:
     """Worker-side: run one script on the real code, derive acts, evaluate the oracle."""
     from . import sim_c19
-    r = sim_c19.run_stream(sc)
+    r = sim_c19.run_stream(sc, wall_limit=240.0)
     if "sim_error" in r:
         return {"sc": sc, "sim_error": r["sim_error"]}
     d = derive(r["obs"])
